@@ -58,7 +58,9 @@ type tcase struct {
 	// the session runs over a layer a negotiation step installed (a plain
 	// io.ReadWriter) on top of the deadline-capable transport
 	layered bool
-	steps   [][]*action // actions of one step run concurrently; steps run one after the other
+	// "" ready-made; "initiated" / "received": through the default negotiator
+	negotiated string
+	steps      [][]*action // actions of one step run concurrently; steps run one after the other
 }
 
 var entries = []string{"Send", "SendElement", "Encode", "EncodeElement", "TokenWriter", "SendIQ", "SendIQElement", "EncodeIQ", "SendMessage", "EncodeMessageElement", "SendPresence", "SendPresenceElement"}
@@ -97,6 +99,9 @@ func genCase(t *rapid.T) tcase {
 	tc := tcase{s2s: rapid.Bool().Draw(t, "s2s"), serve: rapid.IntRange(0, 3).Draw(t, "serve") > 0}
 	tc.closeWriteFails = rapid.IntRange(0, 5).Draw(t, "closeWriteFails") == 0
 	tc.layered = rapid.IntRange(0, 3).Draw(t, "layered") == 0
+	if !tc.layered && rapid.IntRange(0, 2).Draw(t, "negotiatedSession") == 0 {
+		tc.negotiated = rapid.SampledFrom([]string{"initiated", "received"}).Draw(t, "negotiatedRole")
+	}
 	idx := 0
 	ns := rapid.IntRange(1, 6).Draw(t, "nsteps")
 	for s := 0; s < ns; s++ {
@@ -138,7 +143,7 @@ func genCase(t *rapid.T) tcase {
 
 func (tc tcase) String() string {
 	var sb strings.Builder
-	fmt.Fprintf(&sb, "s2s=%v serve=%v write-of-the-closing-tag-fails=%v transport-layered-by-a-negotiation-step=%v steps:", tc.s2s, tc.serve, tc.closeWriteFails, tc.layered)
+	fmt.Fprintf(&sb, "s2s=%v serve=%v write-of-the-closing-tag-fails=%v transport-layered-by-a-negotiation-step=%v session=%q steps:", tc.s2s, tc.serve, tc.closeWriteFails, tc.layered, tc.negotiated)
 	for i, st := range tc.steps {
 		fmt.Fprintf(&sb, "\n  step %d (concurrently):", i)
 		for _, a := range st {
@@ -291,7 +296,7 @@ func check(t interface {
 		}
 		ev.Failf(t, "%s\nresults:%s\n%s%s", tc.String(), tc.results(), fmt.Sprintf(format, args...), out)
 	}
-	opts := wire.SessionOpts{Layered: tc.layered}
+	opts := wire.SessionOpts{Layered: tc.layered, Negotiated: tc.negotiated}
 	if tc.s2s {
 		opts.State |= xmpp.S2S
 	}
@@ -680,6 +685,9 @@ func classify(tc tcase) (bool, []string) {
 	}
 	if tc.layered {
 		classes = append(classes, "layered-transport")
+	}
+	if tc.negotiated != "" {
+		classes = append(classes, "session-negotiated-"+tc.negotiated)
 	}
 	if concClose {
 		classes = append(classes, "close-concurrent-with-something")
